@@ -1,5 +1,6 @@
 // The translated segments of used / Trim / trimSubdir (Gen/CacheSrc.v, made by harness/go2coq on
-// every run and extracted next to the model) are RUN against the implementation: a test of the
+// every run and extracted to a file of their own, Extract/CacheTrimSrcExtract.v; second model binary
+// bin/model_cachetrim_src built by ocaml/build_src.sh) are RUN against the implementation: a test of the
 // translator, of its semantic library and of the denotations of package time in Cache/SrcLib.v.
 //
 //	srcdue     the translated test of the parsed trim.txt, for every clock/record pair of the
@@ -22,9 +23,43 @@ import (
 	"verif/harness/common"
 )
 
+// The translated segments live in a binary of their own, which ocaml/build_src.sh removes when
+// the translated text no longer fits its driver (a candidate change gave a segment another
+// signature): every other oracle of this runner runs regardless.
+var srcModel *common.Model
+var srcTried bool
+
+func (rn *runner) src() *common.Model {
+	if srcTried {
+		return srcModel
+	}
+	srcTried = true
+	if rn.f.Model == "" {
+		return nil
+	}
+	bin := rn.f.Model + "_src"
+	if _, err := os.Stat(bin); err != nil {
+		rn.res.Notes = append(rn.res.Notes, "no "+filepath.Base(bin)+" (the translated segments of cache.go could not be extracted or no longer fit ocaml/cachetrim/src_driver.ml): they were not run against the implementation")
+		return nil
+	}
+	m, err := common.StartModel(bin)
+	if err != nil {
+		rn.res.Notes = append(rn.res.Notes, "cannot start "+filepath.Base(bin)+": "+err.Error())
+		return nil
+	}
+	if m.Ask1("srcfresh 0 0") != "keep" {
+		rn.res.Notes = append(rn.res.Notes, filepath.Base(bin)+" does not answer the src requests: the translated segments were not run")
+		m.Close()
+		return nil
+	}
+	srcModel = m
+	return m
+}
+
 // srcDue re-asks the due-requests of the record sweep of the translated segment.
 func (rn *runner) srcDue(reqs, impl, descr []string) {
-	if rn.m == nil {
+	sm := rn.src()
+	if sm == nil {
 		return
 	}
 	var sreqs []string
@@ -39,7 +74,7 @@ func (rn *runner) srcDue(reqs, impl, descr []string) {
 	if len(sreqs) == 0 {
 		return
 	}
-	ans, err := rn.m.Ask(sreqs)
+	ans, err := sm.Ask(sreqs)
 	if err != nil {
 		rn.res.Notes = append(rn.res.Notes, "model error in the translated due-test: "+err.Error())
 		return
@@ -47,10 +82,6 @@ func (rn *runner) srcDue(reqs, impl, descr []string) {
 	for k, a := range ans {
 		i := idx[k]
 		rn.res.Count("srcseg:due:" + a)
-		if a == "BAD-REQUEST" {
-			rn.res.Notes = append(rn.res.Notes, "the model binary does not answer the src requests: the translated segments were not run")
-			return
-		}
 		if a != impl[i] {
 			var s Scenario
 			json.Unmarshal([]byte(descr[i]), &s)
@@ -63,12 +94,11 @@ func (rn *runner) srcDue(reqs, impl, descr []string) {
 
 // srcSweep: used and trimSubdir on single files at every age of the pool.
 func (rn *runner) srcSweep(r *common.RNG, n int) {
-	if rn.m == nil || !injectable {
+	sm := rn.src()
+	if sm == nil || !injectable {
 		return
 	}
-	if rn.m.Ask1("srcfresh 0 0") != "keep" {
-		return // srcDue has said so
-	}
+	defer func() { sm.Close(); srcModel, srcTried = nil, true }()
 	dir, err := os.MkdirTemp(rn.work, "srcsweep")
 	if err != nil {
 		return
@@ -112,7 +142,7 @@ func (rn *runner) srcSweep(r *common.RNG, n int) {
 			}
 		}
 		req := fmt.Sprintf("srcfresh %d %d", mt, now)
-		ans := rn.m.Ask1(req)
+		ans := sm.Ask1(req)
 		rn.res.Count("srcseg:fresh:" + ans)
 		rn.res.Case(req, true)
 		if ans != impl {
@@ -136,7 +166,7 @@ func (rn *runner) srcSweep(r *common.RNG, n int) {
 		c.Trim()
 		_, present := mtimeOf(q)
 		req = fmt.Sprintf("srcremove %d %s %d", now, hx(hn), mt)
-		ans = rn.m.Ask1(req)
+		ans = sm.Ask1(req)
 		rn.res.Count("srcseg:remove:" + ans)
 		rn.res.Case(req, true)
 		if (ans == "remove") == present || (ans != "remove" && ans != "keep" && ans != "skip") {
